@@ -54,6 +54,9 @@ type Ctx struct {
 	Dist        map[string]int // input distribution: shape classes, sizes, branches hit
 	Violations  []Violation
 	Notes       []string
+
+	// Context: the ops that established the current state (last build / load), for replays
+	Context []string
 }
 
 func NewCtx(prop, tier string, seed int64, outDir string) (*Ctx, error) {
@@ -68,7 +71,7 @@ func NewCtx(prop, tier string, seed int64, outDir string) (*Ctx, error) {
 	if err != nil {
 		return nil, err
 	}
-	return &Ctx{
+	c := &Ctx{
 		Prop: prop, Tier: tier, Seed: seed, OutDir: outDir,
 		Rng:      rand.New(rand.NewSource(seed)),
 		script:   bufio.NewWriterSize(fs, 1<<20),
@@ -77,7 +80,9 @@ func NewCtx(prop, tier string, seed int64, outDir string) (*Ctx, error) {
 		fi:       fi,
 		distinct: map[string]struct{}{},
 		Dist:     map[string]int{},
-	}, nil
+	}
+	startWatchdog(c)
+	return c, nil
 }
 
 // Op appends one operation and the implementation's canonical answer.
